@@ -171,6 +171,9 @@ type Termer struct {
 	// feasible under the branch outcomes dominating At (correlated-phi narrowing, narrow.go).
 	At *ssa.BasicBlock
 	gs []Guard
+	// c07cur: per gene list (keyed by the list's term), how the list's cursor variable relates to the index it
+	// reads (robust_c07.go, c07CursorInfo); nil entries mean "the cursor is the index".
+	c07cur map[string]*c07Cur
 }
 
 // NewTermerAt returns a Termer whose terms describe values as seen from block `at`.
